@@ -249,9 +249,19 @@ def linkValidate (m : Method) : List Diag :=
   let d4 := if (m.params.map (·.name)).eraseDups.length = m.params.length then d4 else d4.eraseDups
   d1 ++ d2 ++ d3 ++ d4
 
+/-- `GetSecurityFromContext` fails (an error, not a diagnostic) on an empty scheme name and on a `scopes`
+    property that is not an array of strings (marked by a leading U+0002 by the driver's parser) -/
+def securityUnreadable (attrs : List Annot) : Bool :=
+  (attrs.filter (·.name = "Security")).any fun a =>
+    a.value.isEmpty || (match a.props.find? (·.1 = "scopes") with
+      | some (_, k, v) => k != .arr || v.startsWith (String.singleton (Char.ofNat 2))
+      | none => false)
+
 /-- everything the receiver validator reports; `none` = a hard (non-diagnostic) error -/
 def validateReceiver (env : TypeEnv) (errorEmbedders : List String) (enforce hasDefault : Bool) (ctrlAnnots : List Annot) (m : Method) :
     Option (List Diag) :=
+  -- `validateSecurity` reads the controller's and the route's security only when the enforce flag is on
+  if enforce && (securityUnreadable ctrlAnnots || securityUnreadable m.annots) then none else
   (validateParams env m).map fun pd =>
     commonValidate "route" m.annots ++ pd ++ validateReturns errorEmbedders m ++
     validateSecurity enforce hasDefault ctrlAnnots m ++ linkValidate m
